@@ -180,7 +180,8 @@ func vC16Exec(t *testing.T, c *vCase) {
 			}
 			s, err := vC16NewMain(trusted, allow)
 			if err != nil {
-				out = "err"
+				// refused: the case goes on with a server that has nothing configured
+				out = "err " + ensure().show()
 				break
 			}
 			srv = s
